@@ -263,6 +263,8 @@ def run(run):
     run.notes['sumif_supported_by_installed_pandas'] = sumif
     rp = calls.Replayer(paths=('direct', 'wrapped', 'formula'), features=features)
     byf = calls.replay_dump(run, blocks, rp)
+    # the same calls in four orders, each order in ONE fresh process (state left behind by earlier calls)
+    calls.replay_orders(run, blocks, calls.Replayer(paths=('direct', 'wrapped'), features=features), key=lambda b: len(b), sample=20000)
     run.notes['cases_by_function'] = byf
     run.rule = ('cases = all done-states of MC_C15: every column over {-5,0,1,10,"abc","ABC","b"} up to MaxCol cells x '
                 '{7 prefixes x operands 1,-5,0.5,abc,b; plain numbers}; COUNTIFS with 1-3 criteria columns; exact MATCH with '
